@@ -23,11 +23,12 @@ fn digit(code: usize, i: usize) -> usize {
     (code >> (3 * i)) & 7
 }
 fn len_of(code: usize, i: usize) -> usize {
-    4 * ((code >> (3 * i)) & 7)
+    (code >> (6 * i)) & 63
 }
 
 /// `N` chunks arriving in the coded order. `IDS`: chunk id of arrival position
-/// i is octal digit i. `LENS`: payload length / 4 of arrival position i.
+/// i is octal digit i. `LENS`: payload length (bytes, < 64) of arrival position i
+/// is base-64 digit i.
 pub fn reassembly<const N: usize, const IDS: usize, const LENS: usize>() {
     // a 56-byte zero-channel packet skeleton: masks assigned zero (so that the
     // decoder's length rule can be met), every other byte symbolic
